@@ -138,7 +138,8 @@ func ruleC13Orphans(p *Prog, r *Res) {
 								}
 								return true
 							})
-							if lo := identObj(info, se.Low); lo == nil || lo != encKey {
+							// only inside a loop over X there is an "element being handled"
+							if lo := identObj(info, se.Low); (encKey != nil || encVal != nil) && (lo == nil || lo != encKey) {
 								removesCurrent := false
 								for _, st2 := range blk.List {
 									ast.Inspect(st2, func(y ast.Node) bool {
